@@ -5,6 +5,7 @@ open V V.Drv
 def handle (line : String) : String :=
   match line.trimAscii.toString.splitOn " " with
   | "S" :: ops :: _ => runSent ops
+  | "H" :: cfg :: preds :: ops :: _ => runH cfg preds ops
   | _ => "bad-case"
 
 partial def loop (h : IO.FS.Stream) (out : IO.FS.Stream) : IO Unit := do
